@@ -138,6 +138,10 @@ def run(ck):
         ck.guard("C01-R7", r7_mirror, ck, F)
         ck.guard("C01-R8", r8_pending_block, ck, F)
         ck.guard("C01-R9", r9_fill_lengths, ck, F)
+        # what is written reaches the sink whole and in order, and offsets are the sink's byte count
+        from .c11 import r2_count_accepted, r1_write_all
+        ck.guard("C01-R10", r2_count_accepted, ck, F, "C01-R10")
+        ck.guard("C01-R10", r1_write_all, ck, F, "C01-R10")
     from . import fixtures
     ck.guard("C01-R9", fixtures.run, ck, "C01")
     ck.trusted += ["rustc MIR construction", "the codec crates (snap, flate2, lz4_flex, zstd): block bytes in = block bytes out", "std Vec/slice semantics (last_mut, split_last_mut)"]
@@ -574,11 +578,10 @@ def r6_depth(ck, F):
 
 
 # ---------------------------------------------------------------------------------------
-def r8_pending_block(ck, F):
+def r8_pending_block(ck, F, R="C01-R8"):
     """a block that holds at least one entry is always flushed: `last_key()` is Some exactly when an
     entry was inserted since the last flush (getter is a pure projection, insert sets it on both
     arms, only the post-flush reset clears it), and both flush sites test exactly that"""
-    R = "C01-R8"
     from .c18 import r1_order_assert, r3_lastkey_life
     from .c03 import r5_wrappers
     lk = F.body(A("bw_last_key"))
